@@ -187,20 +187,41 @@ theorem history_eq_fresh (upper : Str → Str) (ops ops' : List EditOp)
       (F.byRule cenv rule).map (fun o => (o.bind F.obj?).map Route.view)) := by
   exact answers_of_same_survivors (editRun_inv upper ops hok) (editRun_inv upper ops' hok') hsame env hns
 
+/-- **… and as the router freshly built from its survivors.**  `R.fresh` (`Model/RouterEdit.lean`,
+section 11) registers the routes (with their method tables), names and hook pairs of `R` one by
+one on a new router.  It is a legitimate router state (all invariants of `router_refines_maps`
+hold in it, nothing in it is unspecified), and whenever it holds the same three maps as `R` the
+edited router answers every path, name and rule lookup exactly as it does, hooks included when no
+prefix of the matched pattern is at or below a removed `prefix*`. -/
+theorem history_eq_fresh_built (upper : Str → Str) (ops : List EditOp) (hok : ∀ op ∈ ops, EditOK op)
+    (hsame : SameSurvivors (Router.editRun upper ops) (Router.editRun upper ops).fresh)
+    (env : FilterEnv) (hns : NoSel env) :
+    let R := Router.editRun upper ops
+    EInv R.fresh (fun _ => False) ∧
+    (∀ path ms, (R.resolve env path ms).answer = (R.fresh.resolve env path ms).answer) ∧
+    (∀ path ms rule vs, specResolve env R.rules (stripSlash path) = some (rule, vs) →
+      (∀ q, q <+: rule.pat → ¬ taintRun ops (patStr q)) →
+      (R.resolve env path ms).hooks = (R.fresh.resolve env path ms).hooks) ∧
+    (∀ nm, ((R.byName nm).bind R.obj?).map Route.view =
+      ((R.fresh.byName nm).bind R.fresh.obj?).map Route.view) ∧
+    (∀ cenv rule, (R.byRule cenv rule).map (fun o => (o.bind R.obj?).map Route.view) =
+      (R.fresh.byRule cenv rule).map (fun o => (o.bind R.fresh.obj?).map Route.view)) := by
+  have hR := editRun_inv upper ops hok
+  have hF := fresh_einv hR
+  obtain ⟨h1, h2, h3, h4⟩ := answers_of_same_survivors hR hF hsame env hns
+  exact ⟨hF, h1, fun path ms rule vs hsr hT => h2 path ms rule vs hsr (fun q hq => ⟨hT q hq, fun hf => hf⟩), h3, h4⟩
+
 /- OPEN: theorem fresh_same_survivors (upper : Str → Str) (ops : List EditOp)
       (hok : ∀ op ∈ ops, EditOK op) (hT : ∀ ps, ¬ taintRun ops ps) :
-      let R := Router.editRun upper ops
-      EInv R.fresh (fun _ => False) ∧ SameSurvivors R R.fresh
-   `Router.fresh` (`Model/RouterEdit.lean`, section 11) registers the survivors of `R` one by one on
-   a new router (post-parse halves of `add` / `add_hook`).  With it,
-   `answers_of_same_survivors` (`Lemmas/RouterEditMaps.lean`, the general form of
-   `history_eq_fresh` for any two states satisfying the invariant) gives
-   `resolve R p = resolve R.fresh p` literally.  Not proved in Lean: it needs "every registration of
-   a survivor is accepted" (no filter clash among patterns of one well-formed tree, no dead
-   branches in the tree being built) as a fold over the three indexes.  Covered instead by the
-   correspondence check on both sides: the driver compares `R` with `R.fresh` (op `FS`: answers,
-   delivered hooks, every name, the routes index) for every history it plays, the harness compares
-   the edited real application with a real one rebuilt from the survivors. -/
+      SameSurvivors (Router.editRun upper ops) (Router.editRun upper ops).fresh
+   i.e. the hypothesis `hsame` of `history_eq_fresh_built` always holds (when nothing is
+   unspecified).  Not proved in Lean: it needs "every registration of a survivor is accepted and
+   stores what it was given" (no filter clash among patterns of one well-formed tree, no dead
+   branches in the tree being built, method tables rebuilt in order) as a fold over the three
+   indexes.  Covered instead by the correspondence check on both sides: for every history it
+   plays, the driver compares `R` with `R.fresh` (op `FS`: answers, delivered hooks, every name,
+   the routes index) and the harness compares the edited real application with a real one rebuilt
+   from the survivors. -/
 
 /-- **Route hooks fire for exactly the matched routes whose pattern extends the hook's, outermost
 first, with the matched path prefix.**  When `resolve` finds a handler, the plain matcher selects
@@ -279,6 +300,27 @@ example : (∀ op ∈ exOps, EditOK op) ∧ (∀ op ∈ exOpsF, EditOK op) ∧
   have n2 : (Router.editRun id exOpsF).named = [("n".toList, 0)] := rfl
   have k1 : (Router.editRun id exOps).hookIdx = (Router.editRun id exOpsF).hookIdx := rfl
   refine ⟨⟨fun ps => ?_, fun nm => ?_, fun ps => ?_⟩, rfl, rfl⟩
+  · unfold Router.routeAt dictGet
+    rw [h1, h2]
+    simp only [List.find?]
+    split <;> simp [o1]
+  · unfold Router.nameAt dictGet
+    rw [n1, n2]
+    simp only [List.find?]
+    split <;> simp [o1]
+  · unfold Router.hookAt
+    rw [k1]
+
+/-- `history_eq_fresh_built`: for the example history the router rebuilt from the survivors holds
+the same three maps as the edited one -/
+example : SameSurvivors (Router.editRun id exOps) (Router.editRun id exOps).fresh := by
+  have h1 : (Router.editRun id exOps).routes = [("ab".toList, 0)] := rfl
+  have h2 : (Router.editRun id exOps).fresh.routes = [("ab".toList, 0)] := rfl
+  have o1 : ((Router.editRun id exOps).obj? 0).map Route.view = ((Router.editRun id exOps).fresh.obj? 0).map Route.view := rfl
+  have n1 : (Router.editRun id exOps).named = [("n".toList, 0)] := rfl
+  have n2 : (Router.editRun id exOps).fresh.named = [("n".toList, 0)] := rfl
+  have k1 : (Router.editRun id exOps).hookIdx = (Router.editRun id exOps).fresh.hookIdx := rfl
+  refine ⟨fun ps => ?_, fun nm => ?_, fun ps => ?_⟩
   · unfold Router.routeAt dictGet
     rw [h1, h2]
     simp only [List.find?]
